@@ -428,9 +428,9 @@ def t_pydantic_v2_BaseModel : List Tpl := [
       .text [' ', ' ', '#', ' '],
       .out (.name "comment")] [],
     .ite (.name "description") [
-      .text ['\n', ' ', ' ', ' ', ' '],
+      .text ['\n', ' ', ' ', ' ', ' ', '"', '"', '"', '\n', ' ', ' ', ' ', ' '],
       .out (.filter (.filter (.name "description") .escapeDocstring) (.indent 4)),
-      .text ['\n', ' ', ' ', ' ', ' ', '"', '"', '"', '\n', ' ', ' ', ' ', ' ', '"', '"', '"']] [],
+      .text ['\n', ' ', ' ', ' ', ' ', '"', '"', '"']] [],
     .ite (.and (.not (.name "fields")) (.not (.name "description"))) [
       .text ['\n', ' ', ' ', ' ', ' ', 'p', 'a', 's', 's']] [],
     .ite (.name "config") [
